@@ -41,7 +41,7 @@ ASSUMPTIONS = ['a trailing slash may either count as a present empty segment or 
                'items containing a single quote are double-quoted too; white space, backslashes outside quotes and '
                'escapes other than \\\\ and \\" are DONT-CARE for split_by_commas']
 INTERPRETER_FLAGS = [[], ['-O'], [], ['-bb']]
-CONCURRENT = lambda case: True          # pure functions of their arguments; see vlib/concurrent.py
+CONCURRENT = lambda case: case.get('kind') != 'twins' and case.get('cls') != 'long'         # pure functions of their arguments; see vlib/concurrent.py
 SHARDS = {'quick': 4, 'thorough': 16}
 
 SEG_CLASSES = ['plain', 'empty', 'dot', 'dotdot', 'spaced', 'unicode']
@@ -261,7 +261,8 @@ def eval_commas(ctx, case):
     from oslo_utils import strutils
     kind = case['kind']
     if kind == 'commas':
-        items = case['items']
+        # (an item may be given as {'unit': ',', 'n': 9999}: that many repetitions, kept short in the case)
+        items = [x['unit'] * x['n'] if isinstance(x, dict) else x for x in case['items']]
         text = join_items(items)
         want = items
         cls = features(items)
@@ -394,8 +395,29 @@ def _evaluate_modes(ctx, case):
 def _evaluate(ctx, case):
     if case['kind'] == 'path':
         eval_path(ctx, case)
+    elif case['kind'] == 'twins':
+        eval_twins(ctx, case)
     else:
         eval_commas(ctx, case)
+
+
+def eval_twins(ctx, case):
+    """The same characters handed over as other str objects, in several orders (vlib/twins.py): a case-insensitive str
+    subclass after another spelling of its letters, a str subclass without __hash__."""
+    from oslo_utils import strutils
+    from vlib import twins
+    text = case['text']
+    ctx.case(('twins', case['f'], text, case.get('minsegs'), case.get('maxsegs'), case.get('rest')))
+    if case['f'] == 'split_path':
+        a = (case['minsegs'], case['maxsegs'], case['rest'])
+        calls = [('split_path(%s)' % label, lambda v=v: strutils.split_path(v, *a)) for label, v in twins.text_twins(text)]
+        plain = 'split_path(str)'
+    else:
+        calls = [('split_by_commas(%s)' % label, lambda v=v: strutils.split_by_commas(v)) for label, v in twins.text_twins(text)]
+        plain = 'split_by_commas(str)'
+    first = twins.order_independence(ctx, 'equal-valued-arguments-in-any-order', case, calls)
+    twins.as_characters(ctx, 'str-subclass-answered-as-its-characters', case, first, plain=plain,
+                        same=(plain.replace('(str)', '(ci-same)'), plain.replace('(str)', '(eq-without-hash)')))
 
 
 # ---------------------------------------------------------------------------
@@ -553,6 +575,24 @@ def run(ctx):
             for rest in (False, True):
                 emit(P(path, minsegs, maxsegs, rest))
 
+    # ---- the same characters as other str objects (case-insensitive subclasses, unhashable subclasses), in several orders
+    rtw = ctx.rng('twins')
+    for i in range(ctx.pick(240, 12000)):
+        segs = [''.join(rtw.choice('AbCdEfgH1_') for _ in range(rtw.randrange(1, 5))) for _ in range(rtw.randrange(1, 5))]
+        if i % 3:
+            minsegs = rtw.randrange(1, 4)
+            emit(dict(kind='twins', f='split_path', text='/' + '/'.join(segs) + rtw.choice(['', '', '/']), minsegs=minsegs,
+                      maxsegs=rtw.choice([None, minsegs, minsegs + 1, 4]), rest=rtw.random() < 0.4))
+        else:
+            emit(dict(kind='twins', f='split_by_commas', text=join_items(segs) if rtw.random() < 0.8 else '"' + ','.join(segs)))
+
+    # ---- few items, very many commas inside the quotes (commas that are data are not separators; an internal limit
+    # on the number of items counts items)
+    for n in (999, 1000, 4095, 4096, 9998, 9999, 10000, 10001, 16384, 32768, 65535, 65536, 99999, 100000, 250000):
+        for items in (['a', {'unit': ',', 'n': n}, 'b'], [{'unit': ',', 'n': n}], [{'unit': 'x,', 'n': n // 2}, 'tail'],
+                      [{'unit': ',', 'n': n // 2}, {'unit': ', ', 'n': n // 2}, 'c', 'd', 'e']):
+            emit(dict(kind='commas', items=items, cls='long'))
+
     # ---- complete enumeration of class sequences
     kmax = ctx.pick(3, 5)
 
@@ -668,3 +708,10 @@ LEVEL_NOTE = ('Trusted: vlib/models/splitters.py (reference splitter with both t
               'whose remainder starts with a slash (ValueError or exactly that remainder), unquoted white space or backslashes, '
               'escapes other than \\\\ and \\". Non-string paths and minsegs outside 1..4 are not generated.')
 TECHNIQUE = 'reference-model monitor over constructive generators; join/split round trip'
+
+
+# a fifth of the cases runs after "another pyparsing user in the process" has switched pyparsing's process-wide class for
+# bare strings inside expressions to Suppress (ParserElement.inline_literals_using): the grammar built per call may not
+# pick that up
+from vlib import envmodes as _envmodes_pp  # noqa: E402
+evaluate = _envmodes_pp.with_modes(evaluate, pp=lambda case: case.get('kind') not in ('growth', 'path'))
